@@ -5,7 +5,7 @@ import ast
 import builtins
 import os
 
-TRANSFORMS = ["unparse_roundtrip", "rename_locals", "swap_if_else", "insert_pass", "return_temp", "elif_to_nested", "insert_logging", "len_tests", "swap_independent", "combo"]
+TRANSFORMS = ["unparse_roundtrip", "rename_locals", "swap_if_else", "insert_pass", "return_temp", "elif_to_nested", "insert_logging", "len_tests", "swap_independent", "combo", "rename_private_fields"]
 
 
 def transforms_for(prop: str):
@@ -53,6 +53,8 @@ def apply(name: str, root: str, prop: str) -> bool:
             _LenTests().visit(tree)
         elif name == "swap_independent":
             _SwapIndependent().visit(tree)
+        elif name == "rename_private_fields":
+            _rename_private_fields(tree)
         elif name == "combo":
             # everything at once: the transforms must also compose
             _SwapIf().visit(tree)
@@ -301,3 +303,34 @@ class _SwapIndependent(ast.NodeTransformer):
             if isinstance(v, list) and v and isinstance(v[0], ast.stmt):
                 setattr(node, fld, self._block(v))
         return node
+
+
+
+# ----------------------------------------------------------------------------- consistent rename of one private attribute per class
+def _rename_private_fields(tree: ast.Module):
+    """for every class: the private attribute that is assigned in __init__ and used in most methods gets a new name everywhere in the
+    module (a maintainer's `_owner_task` -> `_holder`)"""
+    ren = {}
+    for cls in [n for n in ast.walk(tree) if isinstance(n, ast.ClassDef)]:
+        uses = {}
+        init_attrs = set()
+        for m in cls.body:
+            if isinstance(m, (ast.FunctionDef, ast.AsyncFunctionDef)):
+                for n in ast.walk(m):
+                    if isinstance(n, ast.Attribute) and isinstance(n.value, ast.Name) and n.value.id == "self" and n.attr.startswith("_") and not n.attr.startswith("__"):
+                        uses.setdefault(n.attr, set()).add(m.name)
+                        if m.name == "__init__" and isinstance(n.ctx, ast.Store):
+                            init_attrs.add(n.attr)
+        cands = sorted((a for a in uses if a in init_attrs and len(uses[a]) >= 3 and a not in ren), key=lambda a: (-len(uses[a]), a))
+        # methods/properties of the same name must not be touched
+        meths = {m.name for m in cls.body if isinstance(m, (ast.FunctionDef, ast.AsyncFunctionDef))}
+        cands = [a for a in cands if a not in meths]
+        if cands:
+            ren[cands[0]] = cands[0] + "_rnf"
+    if not ren:
+        return
+    for n in ast.walk(tree):
+        if isinstance(n, ast.Attribute) and n.attr in ren:
+            n.attr = ren[n.attr]
+        elif isinstance(n, ast.Constant) and isinstance(n.value, str) and n.value in ren:
+            n.value = ren[n.value]      # __slots__ entries
